@@ -6,7 +6,7 @@
 TIER=${1:-quick}; shift
 HERE="$(cd "$(dirname "$0")/.." && pwd)"
 cd "$HERE" || exit 2
-if [ -n "${VP_RUN_REPO:-}" ]; then sed -i "s#\"/repo/#\"$VP_RUN_REPO/#" harness/Cargo.toml; fi
+if [ -n "${VP_RUN_REPO:-}" ]; then sed -i "s#\"/repo/#\"$VP_RUN_REPO/#" harness/Cargo.toml harness/fuzz/Cargo.toml; fi
 ./check build || exit 2
 RC=0
 for SEED in "$@"; do
